@@ -8,19 +8,23 @@
       ruleImpl.Execute       slashesHandling switch, capture unescaping    ([execute], [unescape_capture])
       config.Backend.CreateURL   upstream URL                              (C15/Rewrite.v)
 
-    The model is the code AS IT IS.  Two repairs are candidates
-    (fixes/C08-F2.diff, fixes/C08-F3.diff); [fixes] says which of them the
-    modelled tree contains. *)
+    The model is parametric in the repairs that were applied to the tree as fix:
+    commits (C08-F2 a779db8, C08-F3 72ba5d4, C15-F1 41fd1db); [fixes] says which of
+    them the modelled tree contains, [repaired] is the tree as it is now. *)
 From HV Require Import Base.Prelude Base.GoUrl.
 From HV Require Export C15.Rewrite.
 
 Local Open Scope char_scope.
 
-Record fixes := { fx2 : bool; fx3 : bool }.
-Definition pinned : fixes := {| fx2 := false; fx3 := false |}.
-Definition repaired : fixes := {| fx2 := true; fx3 := true |}.
-(** the tree after fixes/C08-F2.diff alone *)
-Definition fixed_F2 : fixes := {| fx2 := true; fx3 := false |}.
+(** [fx2]: C08-F2 repaired (a779db8); [fx3]: C08-F3 repaired (72ba5d4); [fxq]: C15-F1 repaired
+    (41fd1db: QueryParamsRemover also works on a query that does not parse; it only
+    concerns the query of the upstream URL, which no C08 theorem talks about) *)
+Record fixes := { fx2 : bool; fx3 : bool; fxq : bool }.
+Definition pinned : fixes := {| fx2 := false; fx3 := false; fxq := false |}.
+(** the tree as it is now *)
+Definition repaired : fixes := {| fx2 := true; fx3 := true; fxq := true |}.
+(** the tree after a779db8 alone *)
+Definition fixed_F2 : fixes := {| fx2 := true; fx3 := false; fxq := false |}.
 
 Inductive setting := Off | On | NoDecode.
 
@@ -227,7 +231,7 @@ Definition execute (fx : fixes) (rid : string) (is_default : bool) (st : setting
            (be : option backend) (u : hurl) (cs : caps) : outcome :=
   let go (u' : hurl) :=
     Accepted rid is_default (map (fun kv => (fst kv, unescape_capture fx st (snd kv))) cs)
-             (option_map (fun b => create_url b u') be) in
+             (option_map (fun b => create_url_fx (fxq fx) b u') be) in
   match st with
   | On => go {| u_scheme := u_scheme u; u_host := u_host u; u_path := u_path u;
                 u_rawpath := EmptyString; u_query := u_query u |}
